@@ -778,8 +778,26 @@ func (c *Ctx) c15Labelling() {
 	}
 	nSnap, nCall := 0, 0
 	bad := false
+	// does some path collect the snapshot as a list of per-name records (instead of two maps)?
+	recordFormAny := false
+	for _, p := range paths {
+		for _, ev := range p.Events {
+			if ev.Kind == pw.EvAssign && ev.Value != nil && ev.Value.Kind == pw.KAppend {
+				for _, el := range ev.Value.Elems {
+					if el != nil && el.Kind == pw.KAlloc && el.Fields != nil {
+						for _, fv := range el.Fields {
+							if fv != nil && fv.Kind == pw.KMapVal && fv.Ev != nil && fv.Ev.Recv != nil && fv.Ev.Recv.Field != nil && fv.Ev.Recv.Field.Name() == "deleters" {
+								recordFormAny = true
+							}
+						}
+					}
+				}
+			}
+		}
+	}
 	for _, p := range paths {
 		var snapIdx, snapDel *pw.Val
+		recordForm := recordFormAny
 		for _, g := range iterations(p) {
 			if !g.inner {
 				continue
@@ -788,7 +806,30 @@ func (c *Ctx) c15Labelling() {
 			if isSnap {
 				nSnap++
 				okI, okD := false, false
+				isDeletersOf := func(v, key *pw.Val) bool {
+					return v != nil && v.Kind == pw.KMapVal && v.Ev != nil && v.Ev.Recv != nil && v.Ev.Recv.Field != nil && v.Ev.Recv.Field.Name() == "deleters" && (key == nil || v.Ev.Key == key || v.Ev.Key != nil && v.Ev.Key.Kind == pw.KRangeKey)
+				}
 				for _, ev := range g.events {
+					// record form: one struct per name holding the name's label map and deleters, appended to a local list
+					if ev.Kind == pw.EvAssign && ev.Value != nil && ev.Value.Kind == pw.KAppend {
+						for _, el := range ev.Value.Elems {
+							if el == nil || el.Kind != pw.KAlloc || el.Fields == nil {
+								continue
+							}
+							hasI, hasD := false, false
+							for _, fv := range el.Fields {
+								if fv != nil && fv.Kind == pw.KRangeVal {
+									hasI = true
+								}
+								if isDeletersOf(fv, nil) {
+									hasD = true
+								}
+							}
+							if hasI && hasD {
+								okI, okD, recordForm = true, true, true
+							}
+						}
+					}
 					if ev.Kind != pw.EvMapInsert || ev.Recv == nil || ev.Recv.Kind != pw.KAlloc || ev.Key == nil || ev.Key.Kind != pw.KRangeKey {
 						continue
 					}
@@ -814,6 +855,18 @@ func (c *Ctx) c15Labelling() {
 					}
 					if okArgs && snapIdx != nil && g.begin.Recv != snapIdx {
 						okArgs = false
+					}
+					if !okArgs && recordForm && len(ev.Args) >= 3 {
+						// both arguments are fields of the same ranged record of the snapshot list
+						a1, a2 := ev.Args[1], ev.Args[2]
+						if a1 != nil && a2 != nil && a1.Kind == pw.KField && a2.Kind == pw.KField && a1.Src != nil && a1.Src == a2.Src && a1.Field != a2.Field &&
+							(a1.Src.Kind == pw.KRangeVal || a1.Src.Kind == pw.KIndex || a1.Src.Kind == pw.KAddr) {
+							if _, isMap := a1.Type.Underlying().(*types.Map); isMap {
+								if _, isSlice := a2.Type.Underlying().(*types.Slice); isSlice {
+									okArgs = true
+								}
+							}
+						}
 					}
 					if !okArgs {
 						r.Bad("R15.6", name, "per-name-arguments", c.Pos(ev.Pos), "the per-name invalidation is not given that name's label map and that name's deleters from the snapshot", shortTrace(p))
